@@ -135,6 +135,10 @@ fn normalize_basic_value_for_boundaries(
                 // Scale range [0; 1] to the range of the boundaries
                 let range = (#upper_value - #lower_value).abs();
                 let x = #lower_value + from0to1 * range;
+                // Rounding in the operations above can push `x` slightly beyond a boundary
+                // (e.g. -300.3 + 1.0 * 300.0 > -0.3 for f32), and an overflowing `range`
+                // yields infinity or NaN, so bring `x` back into the range.
+                let x = x.max(#lower_value).min(#upper_value);
 
                 // Make sure we satisfy the exclusive boundaries
                 let x = #adjust_x_lower;
